@@ -381,4 +381,4 @@ def ensure(prop, registry, RuleSpec):
 
   def fn(R, repo, _prop=prop):
     run(R, repo, _prop)
-  specs.append(RuleSpec(rid, 'K6+K12', 6 * n, 'bug patterns over the anchored files: options accepted but ignored, optional values tested by truthiness, same-named arguments transposed', fn))
+  specs.append(RuleSpec(rid, 'K6+K12', 6 * n, 'bug patterns over the anchored files: option accepted but no longer read, optional value tested by truthiness, same-named arguments transposed, repeated mutable container, loop variable captured by a stored lambda, bare setdefault(k, [v])', fn))
